@@ -8,6 +8,9 @@
 
 __all__ = """
 SHOW_INFORMATIONAL_MESSAGES
+check_workers
+join_workers
+put_to_workers
 resolve_parallelism
 """.split()
 
@@ -71,3 +74,53 @@ def resolve_parallelism(parallel):
         return parallel
 
     return 1
+
+
+def check_workers(workers, done_event=None):
+    """Raise an exception if any worker process has died abnormally.
+
+    Parameters
+    ----------
+    workers : iterable of :class:`multiprocessing.Process`
+        The worker processes
+    done_event : optional :class:`multiprocessing.Event`
+        If provided, this event will be set before raising the exception, so that
+        the surviving workers wind down.
+
+    Notes
+    -----
+    An exception raised while processing an item in a worker process only
+    terminates that process (after printing a traceback). The parent process
+    must notice that itself, or the overall operation would seem to succeed --
+    or wait forever for a result that will never arrive.
+    """
+    for w in workers:
+        if w.exitcode is not None and w.exitcode != 0:
+            if done_event is not None:
+                done_event.set()
+
+            raise Exception(
+                f"a worker process failed (exit code {w.exitcode}); see its error message above"
+            )
+
+
+def put_to_workers(queue, item, workers, done_event=None):
+    """Put an item onto a bounded queue that is consumed by worker processes,
+    raising an exception instead of blocking forever if workers have died."""
+    from queue import Full
+
+    while True:
+        try:
+            queue.put(item, True, timeout=1)
+            return
+        except Full:
+            check_workers(workers, done_event)
+
+
+def join_workers(workers):
+    """Wait for worker processes to exit, raising an exception if any of them
+    died abnormally."""
+    for w in workers:
+        w.join()
+
+    check_workers(workers)
